@@ -5,10 +5,11 @@ use crate::gen;
 use crate::oracle::{classify, is_window};
 use crate::refenc::{self, ASct, W};
 use crate::rng::Rng;
+use crate::visit::{first_outside, Slices};
 use serde_json::json;
 use tls_parser::*;
 
-pub const RULE: &str = "reference-encoded SCT lists of 0..40 entries (all 256 versions, random 32-byte log ids, timestamps 0/1/2^63/2^64-1/every single bit/random, extension and signature lengths 0..2000 and boundary sizes up to the enclosing u16, all 65536 algorithm pairs) with trailing bytes; the single-entry parser on two-entry inputs; entry length corrupted beyond the list; list length beyond the input; truncation at every byte of short lists (list length rewritten). distinct_nontrivial = distinct (family, #entries class, length classes, corruption, outcome) tuples";
+pub const RULE: &str = "reference-encoded SCT lists of 0..40 entries (all 256 versions, random 32-byte log ids, timestamps 0/1/2^63/2^64-1/every single bit/random, extension and signature lengths 0..2000 and boundary sizes up to the enclosing u16, all 65536 algorithm pairs) with trailing bytes; the single-entry parser on two-entry inputs; entry length corrupted beyond the list; list length beyond the input; truncation at every byte of short lists (list length rewritten); every single length-field corruption (0/1/true-1/true+1/max) and byte mutations of list and single-entry encodings followed by SCT-looking bytes, judged structurally (entry k only references bytes inside the k-th declared entry). distinct_nontrivial = distinct (family, #entries class, length classes, corruption, outcome) tuples";
 pub const ASSUMPTIONS: &[&str] = &["slack bytes inside an entry whose declared length exceeds its content are ignored by design and not judged", "error kinds are not judged"];
 
 fn list_bytes(l: &[ASct]) -> W {
@@ -55,6 +56,8 @@ pub fn run(ctx: &mut Ctx) {
     ctx.floor("alg-pairs", 65536);
     ctx.floor("versions", 256);
     ctx.floor("ts.bits", 64);
+    ctx.floor("lencorrupt.cases", 50_000);
+    ctx.floor("lencorrupt.accepted", 5_000);
 
     let n = ctx.tier.pick(8_000, 80_000);
     ctx.family("lists", n, |ctx, case: &mut Case| {
@@ -210,6 +213,107 @@ pub fn run(ctx: &mut Ctx) {
                 ctx.violation("c14:list:list-length-exceeds-input-accepted".into(), json!({"declared": nv, "available": f.val, "input_hex": hex_short(&b)}));
             } else {
                 ctx.count("list-overlong.novalue");
+            }
+        }
+    });
+
+
+    // every single length-field corruption (and byte mutations) of list encodings, followed by
+    // bytes that look like more SCT data: whatever is returned must come from inside the declared
+    // list, entry k from inside the k-th declared entry (independent walk of the length prefixes)
+    let n = ctx.tier.pick(6_000, 60_000);
+    ctx.family("len-corruptions", n, |ctx, case: &mut Case| {
+        let r = &mut case.rng;
+        let l = gen::sct_vec(r, gen::TINY, 5);
+        let w = list_bytes(&l);
+        let mut tailw = W::new();
+        gen::sct(r, gen::TINY).enc(&mut tailw);
+        let mut cands: Vec<(&'static str, &'static str, Vec<u8>)> = gen::len_corruptions(&w).into_iter().map(|c| (c.kind, c.field, c.bytes)).collect();
+        cands.push(("mutated", "", gen::mutate(r, &w.b)));
+        for (kind, field, mut input) in cands {
+            input.extend_from_slice(&tailw.b);
+            input.extend(gen::opaque(r, 8));
+            let got = ctx.guarded("parse_ct_signed_certificate_timestamp_list", &input, || {
+                let res = parse_ct_signed_certificate_timestamp_list(&input);
+                let out = classify(&res);
+                let mut bad: Option<String> = None;
+                if let Ok((_, v)) = &res {
+                    let ll = ((input[0] as usize) << 8) | input[1] as usize;
+                    if 2 + ll > input.len() {
+                        bad = Some("list-length-exceeds-input-accepted".into());
+                    } else if !out.rem_is_suffix(&input, 2 + ll) {
+                        bad = Some("remainder-not-after-declared-list".into());
+                    } else {
+                        // independent walk of the entry prefixes inside the declared list
+                        let mut ranges = Vec::new();
+                        let mut off = 2;
+                        while off + 2 <= 2 + ll {
+                            let el = ((input[off] as usize) << 8) | input[off + 1] as usize;
+                            if off + 2 + el > 2 + ll {
+                                break;
+                            }
+                            ranges.push((off + 2, el));
+                            off += 2 + el;
+                        }
+                        if v.len() > ranges.len() {
+                            bad = Some(format!("more-entries-than-declared:{}>{}", v.len(), ranges.len()));
+                        } else {
+                            for (k, s) in v.iter().enumerate() {
+                                let mut sl = Vec::new();
+                                s.slices(&mut sl);
+                                if let Some(o) = first_outside(&sl, input.as_ptr() as usize + ranges[k].0, ranges[k].1) {
+                                    bad = Some(format!("entry-{}-references-bytes-outside-its-declared-length:{}", k, o.path));
+                                    break;
+                                }
+                            }
+                        }
+                    }
+                }
+                (out, bad, res.as_ref().map(|x| x.1.len()).unwrap_or(0))
+            });
+            if let Some((out, bad, n_got)) = got {
+                ctx.eval();
+                ctx.count("lencorrupt.cases");
+                if out.is_ok() {
+                    ctx.count("lencorrupt.accepted");
+                }
+                ctx.shape(&("len-corruption", kind, field, out.class(), n_got.min(3)));
+                if let Some(b) = bad {
+                    let rule = b.split(':').next().unwrap_or("").to_string();
+                    ctx.violation(format!("c14:len-corruption:{}", rule), json!({"rule": b, "corruption": kind, "field": field, "entries_returned": n_got, "input_hex": hex_short(&input)}));
+                }
+            }
+        }
+        // the single-entry parser under the same corruptions
+        let s1 = gen::sct(r, gen::TINY);
+        let mut w1 = W::new();
+        s1.enc(&mut w1);
+        for c in gen::len_corruptions(&w1) {
+            let mut input = c.bytes.clone();
+            input.extend_from_slice(&tailw.b);
+            let got = ctx.guarded("parse_ct_signed_certificate_timestamp", &input, || {
+                let res = parse_ct_signed_certificate_timestamp(&input);
+                let out = classify(&res);
+                let mut bad = None;
+                if let Ok((_, v)) = &res {
+                    let el = ((input[0] as usize) << 8) | input[1] as usize;
+                    let mut sl = Vec::new();
+                    v.slices(&mut sl);
+                    if 2 + el > input.len() || !out.rem_is_suffix(&input, 2 + el) {
+                        bad = Some("single-consumed-not-declared-entry");
+                    } else if first_outside(&sl, input.as_ptr() as usize + 2, el).is_some() {
+                        bad = Some("single-references-bytes-outside-declared-entry");
+                    }
+                }
+                (out, bad)
+            });
+            if let Some((out, bad)) = got {
+                ctx.eval();
+                ctx.count("lencorrupt.cases");
+                ctx.shape(&("single-len-corruption", c.kind, c.field, out.class()));
+                if let Some(b) = bad {
+                    ctx.violation(format!("c14:len-corruption:{}", b), json!({"rule": b, "corruption": c.kind, "field": c.field, "input_hex": hex_short(&input)}));
+                }
             }
         }
     });
